@@ -520,6 +520,29 @@ def region_from(f, start, stop_blocks=frozenset()):
     return reach_without_edges(f, start, set(), frozenset(stop_blocks))
 
 
+def creators(prog, g):
+    """the non-closure functions in which the closure body g is created (directly or inside another closure); after a helper was
+    folded into its callers that is no longer the function the closure is named after"""
+    out, seen, st = [], set(), [g]
+    while st:
+        x = st.pop()
+        if x.path in seen:
+            continue
+        seen.add(x.path)
+        if not x.is_closure():
+            out.append(x)
+            continue
+        ups = []
+        for p in sorted(prog.redges().get(x.path, ())):
+            h = prog.fns.get(p)
+            if h is not None and any(st_.get("k") == "closure" and st_.get("closure") == x.path for _, st_ in h.stmts()):
+                ups.append(h)
+        if not ups and x.root in prog.fns:
+            ups = [prog.fns[x.root]]
+        st.extend(ups)
+    return out
+
+
 def closure_args(prog, c):
     """workspace closures handed to a call (`opt.map(|g| ..)`): the bodies that run as part of it"""
     out = []
